@@ -13,6 +13,7 @@ import (
 	"context"
 	"encoding/json"
 	"fmt"
+	"io"
 	"math/rand"
 	"net/http"
 	"net/http/httptest"
@@ -44,6 +45,23 @@ type l1Up struct {
 	Frags int    `json:"frags,omitempty"`
 	T     int64  `json:"t,omitempty"`
 	Lay   string `json:"lay,omitempty"`
+	// Abort: the connection breaks inside the last fragment of the (multi-fragment) segment: the body
+	// delivers the bytes up to there and then fails; the upload must be refused and must not count
+	Abort bool `json:"abort,omitempty"`
+}
+
+type l1ErrReader struct{}
+
+func (l1ErrReader) Read([]byte) (int, error) { return 0, io.ErrUnexpectedEOF }
+
+// offset inside the last fragment of a segment (a few bytes into its moof box)
+func l1CutOffset(body []byte) int {
+	f, err := mp4.DecodeFile(bytes.NewReader(body))
+	if err != nil || len(f.Segments) == 0 || len(f.Segments[0].Fragments) == 0 {
+		return len(body) / 2
+	}
+	frs := f.Segments[0].Fragments
+	return int(frs[len(frs)-1].StartPos) + 30
 }
 
 // duration of a built segment in the track's timescale
@@ -350,7 +368,11 @@ func l1RunScenario(sc l1Scenario, emit func(l1Obs)) {
 				}
 			}
 		}
-		req := httptest.NewRequest(http.MethodPut, url, bytes.NewReader(body))
+		var rd io.Reader = bytes.NewReader(body)
+		if u.Abort {
+			rd = io.MultiReader(bytes.NewReader(body[:l1CutOffset(body)]), l1ErrReader{})
+		}
+		req := httptest.NewRequest(http.MethodPut, url, rd)
 		req.ContentLength = int64(len(body))
 		req.Header.Set("Content-Length", strconv.Itoa(len(body)))
 		rr := httptest.NewRecorder()
@@ -670,6 +692,55 @@ func l1Generate(c *lib.Ctx, rng *rand.Rand) []l1Scenario {
 		}
 		scs = append(scs, sc)
 	}
+	// multi-fragment segments; now and then the connection breaks inside the last fragment and the segment is sent again
+	for k := 0; k < 4*mult; k++ {
+		keys := [][]string{{"v500", "a128"}, {"v500", "v800"}}[k%2]
+		sc := l1Scenario{Kind: 4, Tracks: tracksOf(keys...), Tsbd: 60, Gen: "aborted-then-repeated"}
+		const D = 36000
+		for i := range keys {
+			sc.Ups = append(sc.Ups, l1Up{Init: true, Track: i})
+		}
+		first := int64(10 + rng.Intn(90))
+		for m := int64(0); m < 8; m++ {
+			for t := range keys {
+				u := l1Up{Track: t, Seq: first + m, T: (first + m) * D, Frags: 3, NS: 20, SD: 600, Lay: []string{"trun", "tfhd"}[rng.Intn(2)]}
+				if m >= 2 && rng.Intn(3) == 0 {
+					a := u
+					a.Abort = true
+					sc.Ups = append(sc.Ups, a)
+				}
+				sc.Ups = append(sc.Ups, u)
+			}
+		}
+		scs = append(scs, sc)
+	}
+	// shifted channel with audio whose segments start on AAC frame boundaries (1024 ticks at 48 kHz), i.e. up to
+	// one frame before or after the nominal time number * duration
+	for k := 0; k < 2*mult; k++ {
+		sc := l1Scenario{Kind: 4, Tracks: tracksOf("v500", "a128"), Tsbd: []uint32{16, 60}[k%2], Gen: "shifted-frame-aligned-audio", Shifted: true}
+		vts, ats := tsOf(sc.Tracks[0]), tsOf(sc.Tracks[1])
+		vD := 2 * vts // 2 s segments
+		aD := 2 * ats
+		for i := range sc.Tracks {
+			sc.Ups = append(sc.Ups, l1Up{Init: true, Track: i})
+		}
+		base := int64(449002889 + rng.Intn(1000))
+		frame := int64(1024)
+		aStart := func(n int64) int64 { // nearest frame boundary at or before/after the nominal start
+			nom := n * aD
+			lo := nom / frame * frame
+			if (n+int64(k))%2 == 0 || lo == nom {
+				return lo
+			}
+			return lo + frame
+		}
+		for m := int64(0); m < 10; m++ {
+			sc.Ups = append(sc.Ups, l1Up{Track: 0, Seq: 8090 + m, TNr: base + m, T: (base + m) * vD, NS: 50, SD: vD / 50, Frags: 1, Lay: "trun"})
+			t0, t1 := aStart(base+m), aStart(base+m+1)
+			sc.Ups = append(sc.Ups, l1Up{Track: 1, Seq: 8090 + m, TNr: base + m, T: t0, NS: int((t1 - t0) / frame), SD: frame, Frags: 1, Lay: "tfhd"})
+		}
+		scs = append(scs, sc)
+	}
 	// a sender that restarts re-sends its init segments in the middle of the run
 	for k, keys := range [][]string{{"v500", "a128"}, {"v500", "v800", "a128"}} {
 		sc := l1Scenario{Kind: 4, Tracks: tracksOf(keys...), Tsbd: 30, Gen: "resent-init"}
@@ -749,7 +820,10 @@ func l1CoqCase(id int, sc l1Scenario, obs []l1Obs) string {
 			ops = append(ops, fmt.Sprintf("OCInit %d", u.Track))
 		} else {
 			dts, dur := l1Truth(sc, u)
-			if sc.Shifted {
+			if u.Abort {
+				// refused upload: the file of the number is (re)created and the old one deleted, nothing reaches the channel state
+				ops = append(ops, fmt.Sprintf("OCUpAbort %d %d", u.Track, u.Seq))
+			} else if sc.Shifted {
 				// the model derives number, time and the shifted flag as the upload callback does
 				ops = append(ops, fmt.Sprintf("OCUpIn %d %d %d %d", u.Track, u.Seq, dts, dur))
 			} else {
@@ -904,6 +978,20 @@ func l1Oracle(c *lib.Ctx, id string, sc l1Scenario, obs []l1Obs) {
 			fail(i, "mpd:incomplete-document", o.PubErr)
 			return
 		}
+		if u.Abort {
+			// the connection broke inside the body: the upload must be refused and must not count as a segment
+			if o.Status >= 200 && o.Status < 300 {
+				fail(i, "aborted-upload-accepted", fmt.Sprintf("the body broke inside its last fragment but the upload was answered %d", o.Status))
+				return
+			}
+			for _, it := range o.Bufs[sc.Tracks[u.Track].Name] {
+				if int64(it.SeqNr) == u.Seq {
+					fail(i, "aborted-upload-counted", fmt.Sprintf("the upload of segment %d of %s was refused (%d) but the segment is in the track's buffer with duration %d", u.Seq, sc.Tracks[u.Track].Name, o.Status, it.Dur))
+					return
+				}
+			}
+			continue
+		}
 		if o.Status != http.StatusOK {
 			fail(i, fmt.Sprintf("upload-refused:%d", o.Status), "a well-formed upload was answered with an error")
 			return
@@ -937,6 +1025,10 @@ func l1Oracle(c *lib.Ctx, id string, sc l1Scenario, obs []l1Obs) {
 			nr := o.Stored // the number the segment is stored under (the outgoing number of a shifted channel)
 			if nr < 0 {
 				fail(i, "stored-content", "accepted upload without a stored media file")
+				return
+			}
+			if sc.Shifted && i > 0 && obs[i-1].MaxBuf > 0 && nr != u.timeNr() {
+				fail(i, "stored-under-wrong-number", fmt.Sprintf("segment with time %d (number %d of the channel's numbering) of %s was stored as %d", u.T, u.timeNr(), sc.Tracks[u.Track].Name, nr))
 				return
 			}
 			if truth[sc.Tracks[u.Track].Name] == nil {
